@@ -34,6 +34,11 @@ IO_FAULTS = ["ENOSPC", "EIO_write", "EIO_close", "EMFILE_open", "EACCES_open", "
              "EPIPE_flush", "interrupt", "crash"]
 
 
+# environment variables the interpreter / argparse / gettext consult on their own (not the CLI's business)
+ENV_IGNORED = {"HOME", "COLUMNS", "LINES", "LANGUAGE", "LC_ALL", "LC_MESSAGES", "LANG", "TMPDIR", "TEMP", "TMP", "TERM",
+               "NO_COLOR", "FORCE_COLOR"}
+
+
 def _words():
     from btc_hd_wallet.bip39_wordlist import word_list
     return list(word_list)
@@ -194,8 +199,8 @@ def gen_password(rng):
 
 
 # run index -> number of rows. Pure-Python derivation costs ~25 ms per row (CLI + API twin), so the quick tier stops
-# at 200 rows; the thorough tier goes to 1100 (a hidden cap at 1000 rows is caught only there).
-LONG_INTERVALS_QUICK = {0: 200, 2: 90, 4: 40}
+# at 300 rows; the thorough tier goes to 1100 (a hidden cap at 1000 rows is caught only there).
+LONG_INTERVALS_QUICK = {0: 300, 2: 90, 4: 40}
 LONG_INTERVALS_THOROUGH = {0: 1100, 2: 400, 4: 150, 6: 70, 8: 25}
 
 
@@ -216,7 +221,7 @@ def gen_plan(prop, seed, tier, idx):
     invalid = []
     # ---- global options
     command = rng.choice(["new", "from-master-xprv", "from-mnemonic", "from-bip39-seed", "from-entropy-hex"])
-    use_file = rng.random() < (0.9 if batch in ("race",) else 0.45)
+    use_file = True if batch == "race" else rng.random() < 0.45
     if batch == "io":
         fam = IO_FAULTS[(idx // 4) % len(IO_FAULTS)]
         if fam in ("ENOSPC", "EIO_write", "EIO_close", "EMFILE_open", "EACCES_open"):
@@ -225,9 +230,15 @@ def gen_plan(prop, seed, tier, idx):
             use_file = False
     fstate = None
     if use_file:
-        if only_valid:
-            fstate = rng.choice(["new", "new_fresh", "new_rel", "new_dotdot", "via_linkdir"] +
-                                (["dangling", "new_fresh", "new_fresh"] if batch == "race" else []))
+        if batch == "race":
+            # the race matrix is walked systematically (see _finish): the path state follows the action so that
+            # every action can take effect (an empty parent for rm_parent) and every new-file spelling meets every action
+            k_ = idx // 4
+            act = RACE_ACTIONS[k_ % len(RACE_ACTIONS)]
+            states = ["new", "new_fresh", "new_rel", "new_dotdot", "via_linkdir", "new_fresh", "dangling"]
+            fstate = "new_fresh" if act == "rm_parent" else states[(k_ // len(RACE_ACTIONS)) % len(states)]
+        elif only_valid:
+            fstate = rng.choice(["new", "new_fresh", "new_rel", "new_dotdot", "via_linkdir"])
         else:
             fstate = rng.choice(FILE_STATES)
         if fstate not in ("new", "new_fresh", "new_rel", "new_dotdot", "via_linkdir", "dangling"):
@@ -378,7 +389,8 @@ def _finish(prop, seed, batch, req, argv, invalid, rng, idx=0):
             ent["gap"] = rng.randrange(0, 9)
         faults.append(ent)
     return {"property": prop, "seed": seed, "config": {"batch": batch}, "req": req, "argv": argv,
-            "expected_invalid": invalid, "faults": faults, "device_key": "dev-%d" % seed}
+            "expected_invalid": invalid, "faults": faults, "device_key": "dev-%d" % seed,
+            "tty": rng.random() < 0.3}          # stdout/stderr claim to be a terminal in 30 % of the runs
 
 
 # =========================================================================== execution
@@ -404,7 +416,7 @@ class _Stream(io.TextIOBase):
         return "utf-8"
 
     def isatty(self):
-        return False
+        return bool(getattr(self, "tty", False))
 
     def write(self, s):
         if not isinstance(s, str):
@@ -562,6 +574,7 @@ def run_cli(argv, vfs, inj, device):
     """Run main() in-process; map the outcome to the status the interpreter would return."""
     import btc_hd_wallet.__main__ as cli
     out, err = _Stream("stdout", inj), _Stream("stderr", None)
+    out.tty = err.tty = bool(inj.plan.get("tty"))
     from sim import vfs as _v
     vfs.std_streams = {_v.FD_STDOUT: out, _v.FD_STDERR: err}
     saved = (sys.argv, sys.stdout, sys.stderr)
@@ -575,6 +588,17 @@ def run_cli(argv, vfs, inj, device):
     device.tag = device.tag or "cli"
     status = None
     exc = None
+    import atexit
+    exit_funcs = []
+    real_register, real_unregister = atexit.register, atexit.unregister
+
+    def fake_register(func, *a, **kw):
+        exit_funcs.append((func, a, kw))
+        return func
+
+    def fake_unregister(func):
+        exit_funcs[:] = [e for e in exit_funcs if e[0] is not func]
+    atexit.register, atexit.unregister = fake_register, fake_unregister
     try:
         try:
             # exactly what `python -m btc_hd_wallet` does: execute the package's __main__.py as module "__main__"
@@ -599,7 +623,18 @@ def run_cli(argv, vfs, inj, device):
             err.write("".join(traceback.format_exception_only(type(e), e)))
             status = 1
             exc = type(e).__name__
+        # "interpreter exit" of the simulated process: handlers the CLI registered run now (LIFO), still inside the
+        # simulated file system and streams; an exception in a handler is printed, the status does not change
+        if exc != "KeyboardInterrupt" or True:
+            for func, a, kw in reversed(exit_funcs):
+                try:
+                    func(*a, **kw)
+                except SystemExit:
+                    pass
+                except BaseException as e:
+                    err.write("Exception ignored in atexit callback: %s\n" % type(e).__name__)
     finally:
+        atexit.register, atexit.unregister = real_register, real_unregister
         sys.argv, sys.stdout, sys.stderr = saved
         if saved_home is None:
             os.environ.pop("HOME", None)
@@ -657,6 +692,7 @@ def _run_child(plan):
     f0 = vfs.snapshot()
     vfs.install()
     device.install(pin_clock=True)
+    device.env_planted.update(plan.get("env") or {})       # adaptive environment replay (see CliSim.run)
     try:
         crash_plan = any(f["kind"] == "io" and f["fault"] == "crash" for f in plan["faults"])
 
@@ -874,6 +910,8 @@ def _run_child(plan):
         "twin_computed": int(twin is not None), "entropy_requests": n_requests,
         "gap_sequence": ["/".join(gaps)],
         "invalid_but_served": int(bool(plan["expected_invalid"]) and status == 0),
+        "env_vars_read": sorted(k_ for k_ in device.env_reads if k_ not in ENV_IGNORED and not k_.startswith("PYTHON")),
+        "env_replay": int(bool(plan.get("env"))),
     }
     facts = {"status": status, "stdout_sha": core.digest(out), "stderr_sha": core.digest(err),
              "new_files": {p: core.digest(d.hex()) for p, d in new_files.items()}, "fired": inj.fired,
@@ -930,8 +968,9 @@ class CliSim(Simulator):
         calls = [c[0] for c in r["facts"]["calls"]]
         # (which calls the CLI makes is its own business - a repair may drop os.access or use os.open; the seam is
         #  alive if the validator's look-ups and the creation of the file went through it)
-        if not calls or not any(c in calls for c in ("open", "rename", "link")) or not r["facts"]["new_files"]:
-            raise core.HarnessError("VFS seam dead: the CLI's file did not appear in the simulated file system (%r)" % calls)
+        #  (whether the file is still there at the end is the oracle's business, not the probe's)
+        if not calls or not any(c in calls for c in ("open", "rename", "link")) or "write" not in calls:
+            raise core.HarnessError("VFS seam dead: the CLI's file never reached the simulated file system (%r)" % calls)
         if r["stats"]["entropy_requests"] < 1:
             raise core.HarnessError("entropy device seam dead for `new`")
         if r["facts"]["status"] != 0:
@@ -949,6 +988,27 @@ class CliSim(Simulator):
         return gen_plan(prop, seed, tier, idx)
 
     def run(self, prop, plan):
+        res = self._run_once(prop, plan)
+        if res.get("harness_error") or res["violations"] or plan.get("env"):
+            return res
+        # adaptive environment replay: every variable the CLI was seen to consult is planted with plausible values
+        # and the same vector is run again, in its own process, under the same oracle
+        names = res["stats"].get("env_vars_read") or []
+        for val in (["debug", "1"] if names else []):
+            p2 = dict(plan, env={k_: val for k_ in names})
+            r2 = self._run_once(prop, p2)
+            if r2.get("harness_error"):
+                continue
+            core.merge_stats(res["stats"], {"env_replays": 1})
+            if r2["violations"]:
+                for v_ in r2["violations"]:
+                    v_["signature"] = dict(v_["signature"], env=sorted(names))
+                    v_["detail"] = dict(v_["detail"], planted_environment=p2["env"]) if isinstance(v_["detail"], dict) else v_["detail"]
+                r2["stats"] = res["stats"]
+                return r2
+        return res
+
+    def _run_once(self, prop, plan):
         st, out = core.fork_call(_run_child, (plan,), timeout=300)
         if st != "ok":
             return {"trace": plan, "violations": [], "stats": {}, "digest": None,
